@@ -22,13 +22,17 @@ VOL = {1: 1.0, 2: 2 * math.pi, 3: 4 * math.pi}
 
 @st.composite
 def sedov_case(draw):
-    kind = draw(st.sampled_from(['standard', 'standard', 'vacuum', 'vacuum', 'singular', 'singular-band']))
+    kind = draw(st.sampled_from(['standard', 'standard', 'vacuum', 'vacuum', 'singular', 'singular-band', 'singular-near']))
     if kind.startswith('singular'):
         geom = draw(st.sampled_from([2, 3]))
         g = draw(st.one_of(st.sampled_from([1.4, 5.0 / 3.0, 2.0, 1.2]), uni(1.1, 3.0)))
         ws = cat.sedov_omega_singular(geom, g)
         assume(0 <= ws < geom - 1e-3)
         omega = ws if kind == 'singular' else ws + draw(uni(-0.6, 0.6)) * 1e-4 * (geom + 2 - ws)
+        if kind == 'singular-near':
+            # close to, but clearly outside, the band in which the solver switches to the singular closed form (|v2 - v*| <= 1e-4, i.e. ~8e-4 in omega)
+            omega = ws + draw(st.sampled_from([-1.0, 1.0])) * draw(logu(2e-3, 0.04))
+            assume(0 <= omega < geom - 1e-3)
         rho0, eblast = draw(pos(1.0)), draw(pos(0.851072))
         c = dict(solver=cat.SEDOV, params=dict(geometry=geom, gamma=g, rho0=rho0, omega=omega, eblast=eblast), geometry=geom, gamma=g,
                  omega=omega, kind=kind, rho0=rho0, eblast=eblast)
